@@ -270,18 +270,31 @@ def check_wcb_kernel(eng, obl, out):
 
     ex, res = run("WhereClauseBuilder::push_bounds")
     obl.total += 1
-    ok = len(res) == 1 and res[0].kind == "return" and ex.summ(mx.State(), res[0].value) == "sym:bounds.default"
-    if ok:
-        evs = res[0].events
-        muts = [e for e in evs if touches_self(e)]
-        srcs = [e[1][0] for e in evs if e[0] in ("slice::iter", "Vec::iter", "Deref::Vec::deref")]
-        ok = [(e[0], e[1][0]) for e in muts] == [("Extend::Vec::extend", "sym:self.preds"), ("Extend::Vec::extend", "sym:self.types")] \
-            and "sym:bounds.pred" in srcs and "sym:bounds.ty" in srcs and srcs.index("sym:bounds.pred") < srcs.index("sym:bounds.ty")
-    if ok:
-        obl.discharged += 1
+    DESTRUCTIVE = ("Vec::clear", "Vec::truncate", "Vec::drain", "Vec::retain", "Vec::pop", "Vec::remove", "Vec::swap_remove", "mem::take", "mem::replace", "mem::swap", "Vec::split_off")
+    problems, unknown = [], []
+    for r in res:
+        if r.kind != "return":
+            unknown.append("%s %s" % (r.kind, r.value))
+            continue
+        if ex.summ(mx.State(), r.value) != "sym:bounds.default":
+            problems.append("returns %s instead of the level's `..` flag" % ex.summ(mx.State(), r.value)[:60])
+        muts = [e for e in r.events if touches_self(e)]
+        if any(e[0] in DESTRUCTIVE for e in muts) or any(mx.pstr(k).startswith(("self.preds", "self.types")) for k in r.mem):
+            problems.append("discards what was collected so far (%s)" % ([e[0] for e in muts if e[0] in DESTRUCTIVE] or "assignment to self.preds / self.types"))
+        srcs = " ".join(a for e in r.events for a in e[1])
+        for vec, src in (("sym:self.preds", "bounds.pred"), ("sym:self.types", "bounds.ty")):
+            if not any(e[1][0] == vec for e in muts) or src not in srcs:
+                problems.append("does not append %s to %s" % (src, vec[4:]))
+        if [(e[0], e[1][0]) for e in muts] != [("Extend::Vec::extend", "sym:self.preds"), ("Extend::Vec::extend", "sym:self.types")] and not problems:
+            unknown.append("unfamiliar but not evidently wrong shape: %s" % [(e[0], e[1][0]) for e in muts])
+    if len(res) != 1 and not problems:
+        unknown.append("%d paths (the level's contribution depends on something)" % len(res))
+    if problems:
+        out.violation("wcb|push_bounds", "-", "WhereClauseBuilder::push_bounds %s" % "; ".join(sorted(set(problems))))
+    elif unknown:
+        out.inconclusive.append("fn=WhereClauseBuilder::push_bounds reason=%s" % unknown[0])
     else:
-        out.violation("wcb|push_bounds", "-", "WhereClauseBuilder::push_bounds does more / less than appending the level's predicates and types and returning its `..` flag: %s" % (
-            [(r.kind, [(e[0], e[1][:1]) for e in r.events if touches_self(e)]) for r in res][:3],))
+        obl.discharged += 1
     ex, res = run("WhereClauseBuilder::push_bounds_for_field")
     obl.total += 1
     ok = len(res) == 2
